@@ -76,3 +76,4 @@ Definition run_c05 (code : Z) (ps : list Z) (vs : list (list Z)) : option (list 
   if code <? 5100 then run_hal code ps vs
   else if code <? 5200 then run_core code ps vs
   else None.
+
